@@ -659,3 +659,176 @@ func (c *Ctx) ParamsDoc(withPathVars bool) *Doc {
 	}
 	return d
 }
+
+// ---------------------------------------------------------------------------
+// security family (C11): one (global, kind(A), kind(B)) choice per spec and many path
+// items realising the per-operation combinations.
+
+var SchemeKinds = []string{"bearer", "apikey-header", "apikey-query", "basic", "oauth2", "apikey-cookie", "oidc"}
+
+func (c *Ctx) scheme(kind, label string) *SecurityScheme {
+	switch kind {
+	case "bearer":
+		return &SecurityScheme{Type: "http", Scheme: "bearer"}
+	case "apikey-header":
+		return &SecurityScheme{Type: "apiKey", In: "header", Name: "X-" + strings.Title(c.PlainName("key", label))}
+	case "apikey-query":
+		return &SecurityScheme{Type: "apiKey", In: "query", Name: c.PlainName("key", label)}
+	case "basic":
+		return &SecurityScheme{Type: "http", Scheme: "basic"}
+	case "oauth2":
+		return &SecurityScheme{Type: "oauth2", Flows: &OAuthFlows{Implicit: &OAuthFlow{AuthorizationURL: "https://a.example/auth", Scopes: map[string]string{"read": "r"}}}}
+	case "apikey-cookie":
+		return &SecurityScheme{Type: "apiKey", In: "cookie", Name: c.PlainName("sid", label)}
+	}
+	return &SecurityScheme{Type: "openIdConnect", OpenIDConnectURL: "https://a.example/.well-known/openid-configuration"}
+}
+
+// SecurityDoc draws a document of the security family. kinds: pool of scheme kinds.
+func (c *Ctx) SecurityDoc(kinds []string) *Doc {
+	t := c.T
+	d := c.Doc
+	ka := rapid.SampledFrom(kinds).Draw(t, "kindA")
+	kb := rapid.SampledFrom(kinds).Draw(t, "kindB")
+	if ka == "bearer" && kb == "bearer" {
+		kb = "apikey-header" // goag has a single bearer hook
+	}
+	a, b := c.PlainName("sa", "schemeA"), c.PlainName("sb", "schemeB")
+	cs := c.comps()
+	cs.SecuritySchemes = map[string]*SecurityScheme{a: c.scheme(ka, "a"), b: c.scheme(kb, "b")}
+	c.Tag("schemeA:" + ka)
+	c.Tag("schemeB:" + kb)
+	switch rapid.SampledFrom([]string{"none", "A", "A|B"}).Draw(t, "global") {
+	case "A":
+		d.Security = &[]map[string][]string{{a: {}}}
+		c.Tag("global:A")
+	case "A|B":
+		d.Security = &[]map[string][]string{{a: {}}, {b: {}}}
+		c.Tag("global:A|B")
+	default:
+		c.Tag("global:none")
+	}
+	reqs := []string{"inherit", "public", "A", "B", "A|B", "A&B"}
+	mk := func(kind string) *Operation {
+		op := MinimalOp()
+		switch kind {
+		case "public":
+			op.Security = &[]map[string][]string{}
+		case "A":
+			op.Security = &[]map[string][]string{{a: {}}}
+		case "B":
+			op.Security = &[]map[string][]string{{b: {}}}
+		case "A|B":
+			op.Security = &[]map[string][]string{{a: {}}, {b: {}}}
+		case "A&B":
+			op.Security = &[]map[string][]string{{a: {}, b: {}}}
+		}
+		c.Tag("op:" + kind)
+		return op
+	}
+	for _, k := range reqs {
+		d.Paths["/"+c.PlainName("s", "single")] = &PathItem{Get: mk(k)}
+	}
+	// operations sharing a path
+	nshared := rapid.IntRange(2, 4).Draw(t, "nshared")
+	for i := 0; i < nshared; i++ {
+		pi := &PathItem{}
+		nm := rapid.IntRange(2, 3).Draw(t, "nmethods")
+		ms := rapid.SliceOfNDistinct(rapid.SampledFrom([]string{"GET", "POST", "PUT", "DELETE"}), nm, nm, rapid.ID[string]).Draw(t, "methods")
+		for _, m := range ms {
+			pi.SetOp(m, mk(rapid.SampledFrom(reqs).Draw(t, "req")))
+		}
+		tpl := "/" + c.PlainName("m", "shared")
+		if rapid.Bool().Draw(t, "shared_var") {
+			v := c.PlainName("v", "var")
+			tpl += "/{" + v + "}"
+			pi.Parameters = []*Parameter{{Name: v, In: "path", Required: true, Schema: &Schema{Type: "string"}}}
+		}
+		d.Paths[tpl] = pi
+	}
+	return d
+}
+
+// RouterDocWithSecurity: C16's family.
+func (c *Ctx) RouterDocWithSecurity() *Doc {
+	t := c.T
+	d := c.RouterDoc(RouterOpts{MaxN: 5, MaxDepth: 3, Methods: []string{"GET", "POST", "DELETE", "OPTIONS"}})
+	if rapid.IntRange(0, 3).Draw(t, "has_security") == 0 {
+		return d
+	}
+	names := c.SecuritySchemes(rapid.IntRange(1, 2).Draw(t, "nschemes"), true)
+	if rapid.IntRange(0, 2).Draw(t, "global_security") == 0 {
+		sec := c.securityRequirement(names)
+		d.Security = &sec
+	}
+	for _, p := range SortedKeys(d.Paths) {
+		for _, mo := range d.Paths[p].Ops() {
+			switch rapid.IntRange(0, 3).Draw(t, "op_sec") {
+			case 0:
+				sec := c.securityRequirement(names)
+				mo.Op.Security = &sec
+			case 1:
+				mo.Op.Security = &[]map[string][]string{}
+			}
+		}
+	}
+	return d
+}
+
+// CorsDoc: C17's family: method subsets, header parameters in several letter cases at
+// path-item and operation level, bearer / apiKey security, explicit OPTIONS.
+func (c *Ctx) CorsDoc() *Doc {
+	t := c.T
+	d := c.Doc
+	var names []string
+	if rapid.Bool().Draw(t, "has_security") {
+		names = c.SecuritySchemes(rapid.IntRange(1, 3).Draw(t, "nschemes"), true)
+		if rapid.IntRange(0, 2).Draw(t, "global_security") == 0 {
+			sec := c.securityRequirement(names)
+			d.Security = &sec
+		}
+	}
+	hdrPool := []string{"x-trace", "X-Trace", "X-trace", "If-Match", "if-match", "X-Request-Tag", "x-request-tag", "ETag-Hint", "X-" + c.PlainName("h", "hdr")}
+	tps := c.Templates(5, 3)
+	for _, tp := range tps {
+		pi := &PathItem{}
+		d.Paths[tp.String()] = pi
+		for _, v := range tp.Vars() {
+			pi.Parameters = append(pi.Parameters, &Parameter{Name: v, In: "path", Required: true, Schema: &Schema{Type: "string"}})
+		}
+		if rapid.IntRange(0, 2).Draw(t, "pathlevel_header") == 0 {
+			pi.Parameters = append(pi.Parameters, &Parameter{Name: rapid.SampledFrom(hdrPool).Draw(t, "plh"), In: "header", Schema: &Schema{Type: "string"}})
+		}
+		nm := rapid.IntRange(1, 4).Draw(t, "nmethods")
+		ms := rapid.SliceOfNDistinct(rapid.SampledFrom([]string{"GET", "POST", "PUT", "DELETE", "PATCH", "OPTIONS", "HEAD"}), nm, nm, rapid.ID[string]).Draw(t, "methods")
+		for _, m := range ms {
+			op := MinimalOp()
+			pi.SetOp(m, op)
+			nh := rapid.IntRange(0, 2).Draw(t, "nheaders")
+			used := map[string]bool{}
+			for _, pl := range pi.Parameters {
+				if pl.In == "header" {
+					used[strings.ToLower(pl.Name)] = true
+				}
+			}
+			for j := 0; j < nh; j++ {
+				h := rapid.SampledFrom(hdrPool).Draw(t, "oph")
+				if used[strings.ToLower(h)] {
+					continue // one declaration per (name, in) within an operation
+				}
+				used[strings.ToLower(h)] = true
+				op.Parameters = append(op.Parameters, &Parameter{Name: h, In: "header", Required: rapid.Bool().Draw(t, "hreq"), Schema: &Schema{Type: "string"}})
+			}
+			if len(names) > 0 {
+				switch rapid.IntRange(0, 3).Draw(t, "op_sec") {
+				case 0:
+					sec := c.securityRequirement(names)
+					op.Security = &sec
+				case 1:
+					op.Security = &[]map[string][]string{}
+				}
+			}
+		}
+	}
+	return d
+}
